@@ -2065,3 +2065,18 @@ Lemma depth_counts_siblings :
         [Node [97] [] [] [6] [] []; LinkNode [108] [] [47;97]; Node [98] [] [] [7] [] []; Node [109] [] [] [8] [] [];
          Node [99] [] [] [9] [] []]).
 Proof. vm_compute. reflexivity. Qed.
+
+(* same root cause as diff_link_target_blind (known finding cgnsdiff-link-target-not-compared): without -f a link node is
+   looked THROUGH for its label / type / dimensions / data and never looked AT -- a link /K -> /T1 in one file against a
+   proper node /K with T1's header but other children in the other file is silent even with -d; with -f the children are
+   compared and reported *)
+Definition linkfile_node : node := with_kids adf_root
+  [Node [84;49] [] s_MT [] [] [Node [107;49] [] s_MT [] [] []];
+   Node [84;50] [] s_MT [] [] [Node [107;50] [] s_MT [] [] []];
+   Node [75] [] s_MT [] [] [Node [111;116;104;101;114] [] s_MT [] [] []]].
+Lemma diff_link_vs_node_blind :
+  cgnsdiff Cur MCur o_d [([49], linkfile 49); ([50], linkfile_node)] [([49], linkfile 49); ([50], linkfile_node)] 8 [49] [50] = [] /\
+  cgnsdiff Cur MCur (mkO true true false false true 0) [([49], linkfile 49); ([50], linkfile_node)]
+           [([49], linkfile 49); ([50], linkfile_node)] 8 [49] [50] = [DLeft [47;75;47;107;49]; DRight [47;75;47;111;116;104;101;114]] /\
+  full_view 8 [([49], linkfile 49)] [49] (linkfile 49) <> full_view 8 [([50], linkfile_node)] [50] linkfile_node.
+Proof. split; [vm_compute; reflexivity|]. split; [vm_compute; reflexivity|]. vm_compute. discriminate. Qed.
